@@ -109,7 +109,12 @@ fn one_case(ctx: &Ctx, case: u64, l: &mut Local) {
             "with-blank-entries" if r.chance(30) => (*r.pick(&["", " ", "  "])).to_string(),
             _ if literal_salts && r.chance(50) && used_literals.len() < 40 => {
                 let n = used_literals.len() as u64;
-                let cand = match r.below(9) {
+                let cand = match r.below(13) {
+                    // templating placeholders: a salt is data, never a pattern
+                    9 => format!("{{value}}{n}"),
+                    10 => format!("{{name}}{n}"),
+                    11 => format!("{n}{{salt}}{{}}"),
+                    12 => format!("%s$1{n}"),
                     0 => format!("{}", 12345 + n),
                     1 => format!("-{}", 7 + n),
                     2 => format!("{}e5", n + 1),
